@@ -15,13 +15,13 @@
 //@ implicit [C06,C17]
 //@ requires#callback_callable
       forall|p: Plugin, v: Value| call_requires(*callback, (p, v))
-//@ ensures#the_request_handler_is_started_as_a_task_of_its_own [C17,C06]
+//@ ensures#the_request_handler_is_started_as_a_task_of_its_own [C17,C06,C13,C12,C11,C07]
       final(d).spawned == old(d).spawned + 1
 //@ end
 
 //@ fn cln_plugin::PluginDriver::dispatch_one#request_lookup
 //@ implicit [C06,C17]
-//@ ensures#a_request_reaches_the_handler_registered_for_its_own_method_with_its_own_params [C17,C06]
+//@ ensures#a_request_reaches_the_handler_registered_for_its_own_method_with_its_own_params [C17,C06,C13,C12,C11,C07]
 //    the handler is the one registered under exactly the request's `method` (setconfig: the
 //    setconfig handler), the params are the request's own `params`; anything else is an error
       match (if jget(*request, "method"@) is Some { jstr(jget(*request, "method"@)->0) } else { None }) {
